@@ -184,3 +184,50 @@ def run_C12(ctx):
                     ["intervals are modelled in nanoseconds with the code's truncation; server retry values above 99 ms are carried symbolically", "retry: 0 is left out (the Backoff contract requires intervals > 0)",
                      "1 ns slack for float truncation in jittered waits", "MaxElapsedTime depends on wall-clock time: only necessary conditions are asserted"],
                     exhaustive=True)
+
+
+# ---------------------------------------------------------------------------------------------- C13
+def run_C13(ctx):
+    agg = new_agg()
+    q = ctx.quick
+    consts = dict(Types=Raw('{"", "a", "b"}'), MaxCbs=3 if q else 4, MaxOps=7 if q else 9)
+    d = core.write_mc(ctx, "DispatchGen", "Dispatch", consts, invariants=["Routing", "Export"], properties=["RemovedStaysRemoved", "OthersUnaffected"], view="View")
+    r = core.run_tlc(ctx, d, "DispatchGen", timeout=3000)
+    beh = os.path.join(ctx.work, "beh-dispatch.ndjson")
+    n = core.extract_exports(r.stdout_path, beh)
+    resp = os.path.join(ctx.work, "res-dispatch.json")
+    core.run_driver(ctx, ["dispatch", "-in", beh, "-out", resp], timeout=3000)
+    res = core.read_json(resp)
+    os.remove(beh)
+    for v in res["violations"]:
+        core.report(ctx, v["what"], v["detail"], v["signature"])
+    core.log("%s/dispatch: %d behaviours, signatures %s" % (ctx.pid, res["behaviours"], res["notes"].get("violation_signatures")))
+    agg["evaluations"] += res["evaluations"]
+    agg["distinct"] += res["distinct_nontrivial"]
+    agg["behaviours"] += res["behaviours"]
+    agg["samples"] += res["samples"][:3]
+    agg["n_violations"] += res["n_violations"]
+    # the data-race clause: the race detector is the observation instrument
+    rresp = os.path.join(ctx.work, "res-dispatch-race.json")
+    binp = core.build_harness(ctx, race=True)
+    import subprocess
+    p = subprocess.run([binp, "dispatch-race", "-out", rresp, "-events", "300" if q else "3000"], capture_output=True, text=True, timeout=1200,
+                       env=dict(core.GOENV, VERIF_SEED=str(ctx.seed), GORACE="halt_on_error=0"))
+    races = p.stderr.count("WARNING: DATA RACE")
+    agg["notes"]["race_detector_runs"] = 4
+    agg["notes"]["data_races_reported"] = races
+    if races:
+        if "client_connection.go" in p.stderr or "go-sse" in p.stderr:
+            i = p.stderr.find("WARNING: DATA RACE")
+            core.report(ctx, "data race while subscribing / unsubscribing during dispatch (race detector)", {"race_report": p.stderr[i:i + 4000]}, "dispatch:race")
+        else:
+            raise core.ToolFailure("the race detector reported a race outside the library:\n" + p.stderr[:3000])
+    elif p.returncode != 0:
+        raise core.ToolFailure("dispatch-race failed rc=%d: %s" % (p.returncode, p.stderr[-2000:]))
+    client_evidence(ctx, agg,
+                    "every reachable registry transition (which callbacks are live for which type, last operation) over <= %d callbacks on types {'', a, b} and subscribe-to-all, with "
+                    "repeated and stale removers, before and during a connection, reached by a shortest history; each replayed on a real Connection fed one event per step through a "
+                    "handshaking body reader (the next Read proves the previous event's callbacks ran), subscribe/unsubscribe issued from another goroutine between events; plus 4 runs "
+                    "of concurrent subscribe/unsubscribe during dispatch in a -race build; non-trivial = histories with at least one event" % (3 if q else 4),
+                    ["the race detector observes the data-race clause (TLA+ does not model the Go memory model)", "callbacks are not re-entrant in the driver (never subscribe from inside a callback)"],
+                    exhaustive=True)
